@@ -65,3 +65,15 @@ class CountingGenerator:
 
     def __repr__(self):
         return f'CountingGenerator({self.inner!r}, count={self.count})'
+
+
+# ---- a network with mode-dependent layers (the training flag of every module is observable state).
+# It has the `.NN` attribute neurodiffeq.solvers_utils.get_networks expects.
+class ModeNet(torch.nn.Module):
+    def __init__(self, n_in, variant):
+        super().__init__()
+        mid = [torch.nn.BatchNorm1d(3)] if variant == 'batchnorm' else [torch.nn.Dropout(p=0.25)]
+        self.NN = torch.nn.Sequential(torch.nn.Linear(n_in, 3), *mid, torch.nn.Tanh(), torch.nn.Linear(3, 1))
+
+    def forward(self, x):
+        return self.NN(x)
